@@ -65,8 +65,8 @@ var c15Anchors = []c15Anchor{
 func runC15(c *Ctx) {
 	p, r := c.P, c.R
 	r.Explanation = "C15 time/duration conversions, decided statically over the conversion functions named by the property and every in-module function they call. " +
-		"R1 `overflow` (core): every + - * << and unary minus on a 64-bit integer, every narrowing or sign-changing integer conversion, and every call to time.Time.UnixNano/UnixMicro/UnixMilli, time.Unix and time.Time.Sub/Since/Until in scope is enumerated from go/ssa; for each, E1 must entail from the facts holding before the instruction (dominating guards, non-wrapping definitions, truncated-division and remainder bounds, ranges of Nanosecond()) that the exact mathematical result computed from the operands lies in the result type's range. Inputs range over their full type (strconv.ParseInt: all of int64; results of other calls: full type range). UnixNano & co. carry their documented representability pre-condition, which only a dominating guard on Unix()/Year()/Before/After of the same instant discharges; time.Unix(sec, nsec) is total; Sub/Since/Until saturate and are never accepted. A left shift whose result is only combined bitwise is judged as lane placement (no bit shifted out); a narrowing conversion whose operand is also shifted right by the kept width is a lane split. " +
-		"R2 `units` (narrow): every integer constant >= 1000 (>= 100 as a factor or divisor) used in scope is, by VALUE, one of the unit scales 100/1e3/1e4/1e6/1e7/1e9, the epoch offsets 11644473600, 116444736000000000, 12219292800, 122192928000000000, a power-of-two mask/type extreme, or an epoch year passed to time.Date; and per conversion function the set of (role, value) pairs — multiplied, divided, added, subtracted — equals the table frozen by reading. " +
+		"R1 `overflow` (core): every + - * << and unary minus on a 64-bit integer, every narrowing or sign-changing integer conversion, and every call to time.Time.UnixNano/UnixMicro/UnixMilli, time.Unix and time.Time.Sub/Since/Until in scope is enumerated from go/ssa; for each, E1 must entail from the facts holding before the instruction (dominating guards, non-wrapping definitions, truncated-division and remainder bounds, ranges of Nanosecond()) that the exact mathematical result computed from the operands lies in the result type's range. Inputs range over their full type (strconv.ParseInt: all of int64; results of other calls: full type range). UnixNano & co. carry their documented representability pre-condition, which only a dominating guard on Unix()/Year()/Before/After of the same instant discharges; time.Unix(sec, nsec) is total; Sub/Since/Until saturate and are never accepted. A left shift whose result is only combined bitwise is judged as lane placement (no bit shifted out); a narrowing conversion whose operand is also shifted right by the kept width is a lane split; a same-width signed/unsigned conversion of a value ASSEMBLED from zero-extended lanes by constant shifts and | (int64(uint64(hi)<<32 | uint64(lo))) is a reinterpretation of the bit pattern — the same decision as for int64(hi)<<32 | int64(lo) — while a bare parameter, load or call result stays a numeric conversion. Three summaries keep extracted helpers decidable: a goal over the parameters of an unexported helper is re-posed on the arguments at its call sites; a pure arithmetic helper (integer/boolean parameters, no loads, stores, calls or loops) called with one argument tuple is read in the caller's context — its integer results equal the returned expressions, and the known truth of a boolean one yields the comparisons of the single return/φ-edge that can produce it; a conversion whose operand is not bounded at the site is decided where the operand is produced (each joined value, each return value of an in-module callee, each argument of an unexported helper). The rule's floor is one decided site per conversion function (`overflow-cover`), not an instruction count. " +
+		"R2 `units` (narrow): every integer constant >= 1000 (>= 100 as a factor or divisor) used in scope is, by VALUE (a named constant whose value is in no table is judged through the leaves of its defining expression, so a derived limit may be hoisted into a constant declaration), one of the unit scales 100/1e3/1e4/1e6/1e7/1e9, the epoch offsets 11644473600, 116444736000000000, 12219292800, 122192928000000000, a power-of-two mask/type extreme, or an epoch year passed to time.Date; and per conversion function the set of (role, value) pairs — multiplied, divided, added, subtracted — equals the table frozen by reading. " +
 		"R3 `inverse` (narrow): for each direction pair the epoch subtracted by the tick→time function is the one added by the time→tick function (never the other way round, never missing), and no scale constant is applied in the same direction by both. " +
 		"NOT decided: exactness and inverse-ness as arithmetic identities beyond R1–R3 (e.g. that v/1e7 and (v%1e7)*100 recombine to v, rounding of sub-100 ns parts, the sign convention of LDAP negative intervals, the choice of saturation values). No Manticore code is executed."
 	r.Assumptions = []string{
@@ -76,7 +76,7 @@ func runC15(c *Ctx) {
 		"values returned by calls outside the module (strconv.ParseInt, binary.LittleEndian.Uint64, …) range over their full type",
 	}
 
-	w := prove.NewWorld(p)
+	w := sharedWorld(p)
 
 	// ---- scope -----------------------------------------------------------
 	anchorFn := map[string]*ssa.Function{}
@@ -108,7 +108,7 @@ func runC15(c *Ctx) {
 	}
 	r.Extra["functions_in_scope"] = scopeNames
 
-	c15Overflow(c, w, scope)
+	c15Overflow(c, w, scope, closure)
 	uses := c15Units(c, closure, anchorFn)
 	c15Inverse(c, uses, anchorFn)
 }
@@ -154,16 +154,18 @@ func (ai *c15AST) render(in ssa.Instruction) string {
 	return s
 }
 
-func c15Overflow(c *Ctx, w *prove.World, scope []*ssa.Function) {
+func c15Overflow(c *Ctx, w *prove.World, scope []*ssa.Function, closure map[string][]*ssa.Function) {
 	p, r := c.P, c.R
 	ai := c15Index(p, scope)
 	kinds := map[string]int{}
 	usedNow := 0
 	var siteLog []string
+	sitesIn := map[*ssa.Function]int{}
 	for _, fn := range scope {
 		fname := p.FuncName(fn)
 		for _, s := range w.OverflowSites(fn) {
 			s := s
+			sitesIn[fn]++
 			construct := fname + ": " + ai.render(s.In)
 			pos := p.Rel(s.In.Pos())
 			kinds[s.Kind]++
@@ -189,7 +191,33 @@ func c15Overflow(c *Ctx, w *prove.World, scope []*ssa.Function) {
 	r.Extra["overflow_sites"] = siteLog
 	r.Extra["overflow_sites_by_kind"] = kinds
 	r.Extra["overflow_sites_using_clock_assumption"] = usedNow
-	r.Floor("overflow", 40)
+	// The floor is keyed to the conversion functions, not to the number of
+	// arithmetic instructions (which drops whenever duplicated code is merged
+	// into a shared helper): every anchor must have at least one bound site in
+	// its closure — a conversion that no longer computes anything the rule can
+	// see is reported — and the total can never be below one per anchor.
+	var names []string
+	for a := range closure {
+		names = append(names, a)
+	}
+	sort.Strings(names)
+	for _, a := range names {
+		n := 0
+		for _, f := range closure[a] {
+			n += sitesIn[f]
+		}
+		pos := ""
+		if len(closure[a]) > 0 {
+			pos = p.Rel(closure[a][0].Pos())
+		}
+		if n == 0 {
+			r.Fail("overflow-cover", a+": arithmetic in scope", pos, "no 64-bit arithmetic, conversion or package-time call is bound in this conversion function or its in-module callees: the rule would pass vacuously")
+		} else {
+			r.OK("overflow-cover", a+": arithmetic in scope", pos, fmt.Sprintf("%d sites decided in its closure", n))
+		}
+	}
+	r.Floor("overflow-cover", len(c15Anchors))
+	r.Floor("overflow", len(c15Anchors))
 }
 
 // ---------------------------------------------------------------- R2 ----
@@ -268,6 +296,7 @@ var c15Frozen = map[string][][]string{
 func c15Units(c *Ctx, closure map[string][]*ssa.Function, anchorFn map[string]*ssa.Function) map[string][]c15Use {
 	p, r := c.P, c.R
 	perFn := map[*ssa.Function][]c15Use{}
+	defs := c15BuildConstDefs(p.Pkgs)
 	collect := func(fn *ssa.Function) []c15Use {
 		if u, ok := perFn[fn]; ok {
 			return u
@@ -275,7 +304,7 @@ func c15Units(c *Ctx, closure map[string][]*ssa.Function, anchorFn map[string]*s
 		var us []c15Use
 		if fd, ok := fn.Syntax().(*ast.FuncDecl); ok && fd.Body != nil && fn.Pkg != nil {
 			if pk := p.ByPath[fn.Pkg.Pkg.Path()]; pk != nil {
-				us = c15ConstUses(pk.TypesInfo, fd.Body)
+				us = c15ConstUses(pk.TypesInfo, fd.Body, defs)
 			}
 		} else if fl, ok := fn.Syntax().(*ast.FuncLit); ok {
 			root := fn
@@ -283,7 +312,7 @@ func c15Units(c *Ctx, closure map[string][]*ssa.Function, anchorFn map[string]*s
 				root = root.Parent()
 			}
 			if pk := p.ByPath[root.Pkg.Pkg.Path()]; pk != nil {
-				us = c15ConstUses(pk.TypesInfo, fl.Body)
+				us = c15ConstUses(pk.TypesInfo, fl.Body, defs)
 			}
 		}
 		perFn[fn] = us
